@@ -144,7 +144,7 @@ class CFG:
         # simple statement
         n = self._new(st, "stmt", tag)
         self._link(preds, n)
-        if not isinstance(st, (ast.Pass, ast.Global, ast.Nonlocal, ast.Import, ast.ImportFrom)):
+        if not isinstance(st, (ast.Pass, ast.Global, ast.Nonlocal, ast.Import, ast.ImportFrom)) and not _inert(st):
             self._may_raise(n, ctx)
         return {n}
 
@@ -325,6 +325,25 @@ class CFG:
                 c2[s] = c + 1
                 stack.append((s, path + (s,), c2))
         return out
+
+
+def _inert_expr(e):
+    if isinstance(e, (ast.Constant, ast.Name)):
+        return True
+    if isinstance(e, (ast.List, ast.Tuple, ast.Set)):
+        return all(_inert_expr(x) for x in e.elts)
+    if isinstance(e, ast.Dict):
+        return all(k is not None and _inert_expr(k) and _inert_expr(v) for k, v in zip(e.keys, e.values))
+    return False
+
+
+def _inert(st):
+    """`x = []`, `flag = True`, `a = b`: binding a local to a constant / name / literal of those cannot raise"""
+    if isinstance(st, ast.Assign):
+        return all(isinstance(t, ast.Name) for t in st.targets) and _inert_expr(st.value)
+    if isinstance(st, ast.AnnAssign):
+        return isinstance(st.target, ast.Name) and (st.value is None or _inert_expr(st.value))
+    return False
 
 
 class _Ctx:
